@@ -150,6 +150,7 @@ Example O07_inv_assert_sites :
   list_eqb assert_sites [
   "goose.Ctx.packageMethod | f.X.(*ast.Ident)";
   "goose.Ctx.selectorMethod | deref.(*types.Named)";
+  "goose.Ctx.instantiatedAtOwnTypeParams | fun.Type().(*types.Signature)";
   "goose.Ctx.coqRecurFunc | obj.(*types.Func)";
   "goose.Ctx.varDeclStmt | decl.Specs[0].(*ast.ValueSpec)";
   "goose.Ctx.constDecl | spec.(*ast.ValueSpec)";
